@@ -61,9 +61,34 @@ public:
             const XalanDOMChar  chars[],
             size_type           start,
             size_type           /*length*/,
-            bool&               /* outsideCDATA */)
+            bool&               outsideCDATA)
     {
         assert( chars != 0 );
+
+        if (outsideCDATA == true)
+        {
+            // The previous character was written as a character
+            // reference, outside of the CDATA section, so open a
+            // new section.
+            static const value_type     s_cdataOpenString[] =
+            {
+                XalanUnicode::charLessThanSign,
+                XalanUnicode::charExclamationMark,
+                XalanUnicode::charLeftSquareBracket,
+                XalanUnicode::charLetter_C,
+                XalanUnicode::charLetter_D,
+                XalanUnicode::charLetter_A,
+                XalanUnicode::charLetter_T,
+                XalanUnicode::charLetter_A,
+                XalanUnicode::charLeftSquareBracket
+            };
+
+            write(
+                s_cdataOpenString,
+                sizeof(s_cdataOpenString) / sizeof(s_cdataOpenString[0]));
+
+            outsideCDATA = false;
+        }
 
         write(chars[start]);
 
